@@ -114,7 +114,7 @@ def do_call(dep, c, cfg):
     if st is None:
       return ('skip',)
     if kind == 'Suggest':
-      ts = st.suggest(count=c['n'], client_id=O.WORKERS[c['worker'] % 4])
+      ts = st.suggest(count=c['n'], client_id=O.WORKERS[c['worker'] % len(O.WORKERS)])
       return ('ok', [ntr(t.materialize()) for t in ts])
     if kind == 'ListTrials':
       return ('ok', sorted((ntr(t) for t in st.trials().get()), key=lambda t: t['id']))
